@@ -45,6 +45,7 @@ fn alpha_slot1() -> NodeAlphabet {
         invalid: vec![1],
         first_shreds: vec![1],
         windows: vec![0],
+        forge: vec![],
     }
 }
 
@@ -68,6 +69,7 @@ fn alpha_slots12() -> NodeAlphabet {
         invalid: vec![2],
         first_shreds: vec![],
         windows: vec![0],
+        forge: vec![],
     }
 }
 
@@ -97,6 +99,7 @@ fn alpha_boundary() -> NodeAlphabet {
         invalid: vec![4],
         first_shreds: vec![4],
         windows: vec![0, 4],
+        forge: vec![],
     }
 }
 
@@ -113,6 +116,7 @@ fn alpha_fallbacks() -> NodeAlphabet {
         invalid: vec![],
         first_shreds: vec![],
         windows: vec![0],
+        forge: vec![],
     }
 }
 
